@@ -164,9 +164,9 @@ Addi = make_i("addi", 8)
 Addiu = make_i("addiu", 9)
 Slti = make_i("slti", 10, signed=True)
 Sltiu = make_i("sltiu", 11, signed=True)
-Andi = make_i("andi", 12)
-Ori = make_i("ori", 13)
-Xori = make_i("xori", 14)
+Andi = make_i("andi", 12, signed=False)
+Ori = make_i("ori", 13, signed=False)
+Xori = make_i("xori", 14, signed=False)
 Lui = make_i("lui", 15)
 
 Sllv = make_r("sllv", 0, 4, shift=True)
